@@ -778,6 +778,8 @@ fn apply_context(
         return Some(());
     }
 
+    ctx.buffer
+        .unsafe_to_concat(Some(ctx.buffer.idx), Some(match_end));
     None
 }
 
